@@ -94,11 +94,16 @@ class Evaluator:
             var = self.bool_atom(t)
             if var is not None:
                 neg = False
+                conv = None
                 if isinstance(var, tuple) and var[0] == 'not':
                     neg, var = True, var[1]
+                elif isinstance(var, tuple) and var[0] == 'map':
+                    conv, var = var[2], var[1]
                 self.hits.setdefault(var, set()).add(t)
                 if var in self.assumption:
                     v = self.assumption[var]
+                    if conv is not None:
+                        return conv.get(v)
                     return (not v) if neg else v
                 return None
         if is_cmp_term(t):
